@@ -5713,7 +5713,8 @@ class Forward(ParseElementEnhance):
                 # we are parsing at a specific recursion expansion - use it as-is
                 prev_loc, prev_result = memo[loc, self, do_actions]
                 if isinstance(prev_result, Exception):
-                    raise prev_result
+                    # raise a copy, callers may update the exception they catch
+                    raise prev_result.__class__._from_exception(prev_result)
                 return prev_loc, prev_result.copy()
             except KeyError:
                 act_key = (loc, self, True)
@@ -5731,9 +5732,14 @@ class Forward(ParseElementEnhance):
                 while True:
                     try:
                         new_loc, new_peek = super().parseImpl(instring, loc, False)
-                    except ParseException:
+                    except ParseException as pe:
                         # we failed before getting any match - do not hide the error
                         if isinstance(prev_peek, Exception):
+                            # and memoize it in place of the recursion seed, so that a later
+                            # visit reports what a parse without memoization reports
+                            memo[peek_key] = (prev_loc, pe.__class__._from_exception(pe))
+                            if do_actions:
+                                memo[act_key] = memo[peek_key]
                             raise
                         new_loc, new_peek = prev_loc, prev_peek
                     # the match did not get better: we are done
